@@ -53,6 +53,18 @@ Definition check : rd verdict :=
      (* the DNS dials of a custom resolver rotate over its addresses: the i-th goes to address (i+1) mod k *)
      let model := map Z.of_nat (rot_draws (Z.to_nat k) 1 (length draws)) in
      ret (prop_ok 40 (forallb (fun d => (0 <=? d) && (d <? k)) draws && list_eqb model draws) [k]))
+  else if kind =? 5 then
+    (* the command with k resolvers and caching off: every resolver gets a fair part of the lookups *)
+    (ran <- getbool ;; n <- getz ;; okc <- getz ;; qs <- getlist getz ;;
+     let k := Z.of_nat (length qs) in
+     let total := fold_left Z.add qs 0 in
+     ret (combine_verdicts
+       [ prop_ok 30 (ran && (0 <? n) && (okc =? n)) [n; okc];
+         prop_ok 40 (forallb (fun q => total <=? q * (3 * k)) qs) (k :: qs) ]))
+  else if kind =? 6 then
+    (* a positive TTL: first dial at the first address, and some TTLs after the change at the new one *)
+    (ttl <- getz ;; first <- getz ;; last <- getz ;;
+     ret (combine_verdicts [ prop_ok 1 (first =? 0) [first]; prop_ok 5 (last =? 1) [ttl; last] ]))
   else if kind =? 3 then
     (ran <- getbool ;; keepalive <- getbool ;; n <- getz ;; okc <- getz ;; hits <- getlist getz ;;
      (* the command's requests for the mapped address all succeeded at the replacements, and with
